@@ -2,17 +2,24 @@
 package main
 
 import (
+	"errors"
 	"fmt"
 	"math/rand"
 	"os"
 	"strings"
 
+	"github.com/btcsuite/btcd/btcutil"
 	"github.com/btcsuite/btcd/chaincfg/chainhash"
+	"github.com/btcsuite/btcd/txscript"
 	"github.com/btcsuite/btcd/wire"
+	"github.com/btcsuite/btcwallet/chain"
+	"github.com/btcsuite/btcwallet/wallet"
+	"github.com/btcsuite/btcwallet/walletdb"
 	"github.com/btcsuite/btcwallet/wtxmgr"
 
 	"verif/internal/evid"
 	"verif/internal/ledger"
+	"verif/internal/wh"
 )
 
 const P = "C14"
@@ -146,9 +153,170 @@ func checkOrder(set map[chainhash.Hash]*wire.MsgTx, got []*wire.MsgTx) (string, 
 	return "", ""
 }
 
+// offered: the list actually OFFERED for rebroadcast by a complete wallet
+// (wallet.resendUnminedTxs through the verif hook): a funded wallet publishes
+// independent sends and chains (children spending unconfirmed change); then a
+// rebroadcast pass runs against a backend that accepts everything or rejects
+// one transaction.  Every unconfirmed transaction that does not descend from a
+// rejected one must be offered exactly once, after its unconfirmed parents.
+func offered(r *evid.Run, dir string, cs int64) {
+	rg := rand.New(rand.NewSource(cs))
+	f, err := wh.NewFunded(rg, dir, false, 5)
+	if err != nil {
+		if errors.Is(err, wh.ErrNotSynced) {
+			r.Inconclusive("sync watchdog")
+			return
+		}
+		r.Violation("c14:harness-setup", err.Error(), "offered", cs, nil)
+		return
+	}
+	defer f.Close()
+	f.MinePending()
+	ch := f.Chain
+	var log []string
+	fail := func(key, what string) {
+		r.Violation(key, what, "offered", cs, map[string]any{"steps": log, "what": what})
+	}
+	dest, _ := btcutil.NewAddressWitnessPubKeyHash(make([]byte, 20), f.Params)
+	dpk, _ := txscript.PayToAddrScript(dest)
+	for pass := 0; pass < 3; pass++ {
+		// publish 2..6 transactions: fresh sends (independent components) and
+		// children of unconfirmed change (chains)
+		for i := 0; i < 2+rg.Intn(5); i++ {
+			outs := []*wire.TxOut{wire.NewTxOut(int64(12000+rg.Intn(30000)), dpk)}
+			var tx *wire.MsgTx
+			var err error
+			var changeOps []*wh.Coin
+			for _, c := range f.SortedCoins() {
+				if c.Change && c.Height == -1 && c.SpentBy == "" && c.Out.Value > 40000 {
+					changeOps = append(changeOps, c)
+				}
+			}
+			if len(changeOps) > 0 && rg.Intn(2) == 0 {
+				c := changeOps[rg.Intn(len(changeOps))]
+				sc := c.Scope
+				outs[0].Value = c.Out.Value / 3
+				tx, err = f.W.SendOutputsWithInput(outs, &sc, c.Acct, 0, 2000, wallet.CoinSelectionLargest, "", []wire.OutPoint{c.Op})
+			} else {
+				tx, err = f.W.SendOutputs(outs, nil, 0, 1, 2000, wallet.CoinSelectionLargest, "")
+			}
+			if err != nil {
+				log = append(log, fmt.Sprintf("send failed: %v", err))
+				continue
+			}
+			f.ApplyPublished(tx)
+			log = append(log, fmt.Sprintf("published %s", tx.TxHash().String()[:8]))
+		}
+		ch.Barrier()
+		var txs []*wire.MsgTx
+		walletdb.View(f.DB, func(tx walletdb.ReadTx) error {
+			txs, _ = f.W.TxStore.UnminedTxs(tx.ReadBucket(wh.TxNS))
+			return nil
+		})
+		if len(txs) == 0 {
+			continue
+		}
+		want := map[chainhash.Hash]bool{}
+		for _, t := range txs {
+			want[t.TxHash()] = true
+		}
+		policy := rg.Intn(3) // 0 accept all, 1 reject the first offered, 2 reject a random one
+		rejectAt := 1
+		if policy == 2 {
+			rejectAt = 1 + rg.Intn(len(txs))
+		}
+		sent0 := len(ch.SentTxs())
+		n := 0
+		rejected := map[chainhash.Hash]bool{}
+		ch.SendHook = func(tx *wire.MsgTx) error {
+			n++
+			if policy != 0 && n == rejectAt {
+				rejected[tx.TxHash()] = true
+				go ch.Evict(tx.TxHash())
+				return errors.New("backend: rejected on re-offer")
+			}
+			for _, in := range tx.TxIn {
+				if rejected[in.PreviousOutPoint.Hash] {
+					rejected[tx.TxHash()] = true
+					go ch.Evict(tx.TxHash())
+					return chain.ErrMissingInputsOrSpent
+				}
+			}
+			return nil
+		}
+		f.W.VerifResendUnminedTxs()
+		ch.SendHook = nil
+		ch.Barrier()
+		off := ch.SentTxs()[sent0:]
+		pos := map[chainhash.Hash]int{}
+		for i, t := range off {
+			h := t.TxHash()
+			if _, dup := pos[h]; dup {
+				fail("c14:offered-twice", fmt.Sprintf("transaction %v was offered twice in one rebroadcast pass", h))
+				return
+			}
+			pos[h] = i
+		}
+		desc := map[chainhash.Hash]bool{}
+		for h := range rejected {
+			desc[h] = true
+		}
+		for changed := true; changed; {
+			changed = false
+			for _, t := range txs {
+				if desc[t.TxHash()] {
+					continue
+				}
+				for _, in := range t.TxIn {
+					if desc[in.PreviousOutPoint.Hash] {
+						desc[t.TxHash()] = true
+						changed = true
+					}
+				}
+			}
+		}
+		for h := range want {
+			if _, ok := pos[h]; !ok && !desc[h] {
+				fail("c14:unconfirmed-tx-not-offered", fmt.Sprintf("the rebroadcast pass offered %d of %d unconfirmed transactions; %v, which does not descend from a rejected one, was not offered (policy %d, %d rejected)", len(off), len(want), h, policy, len(rejected)))
+				return
+			}
+		}
+		for _, t := range off {
+			for _, in := range t.TxIn {
+				if pi, ok := pos[in.PreviousOutPoint.Hash]; ok && pi >= pos[t.TxHash()] {
+					fail("c14:offered-child-before-parent", fmt.Sprintf("transaction %v was offered before its unconfirmed parent %v", t.TxHash(), in.PreviousOutPoint.Hash))
+					return
+				}
+			}
+		}
+		edges := 0
+		for _, t := range txs {
+			for _, in := range t.TxIn {
+				if want[in.PreviousOutPoint.Hash] {
+					edges++
+				}
+			}
+		}
+		for _, p := range append([]*wire.MsgTx{}, f.Pending...) {
+			if desc[p.TxHash()] {
+				ch.Evict(p.TxHash())
+				f.Forget(p)
+			}
+		}
+		log = append(log, fmt.Sprintf("rebroadcast pass (policy %d): %d unconfirmed, %d offered, %d rejected incl. descendants, %d dependency edges", policy, len(want), len(off), len(desc), edges))
+		r.Hit("wallet-rebroadcast-passes", 1)
+		r.Hit("wallet-offered-transactions", len(off))
+		r.Hit("wallet-offered-dependency-edges", edges)
+		if len(rejected) > 0 {
+			r.Hit("wallet-rebroadcast-passes-with-rejection", 1)
+		}
+	}
+	r.Case(fmt.Sprint("offered", cs, log), true)
+}
+
 func main() {
 	r := evid.New(P, "exploration")
-	r.Rule("(a) random spend DAGs of 1..120 transactions in 9 shapes (random, chain, star-out, star-in, diamonds, all-independent, k parallel edges between one pair, several components, conflicting siblings, plus subsets with missing parents); each graph is sorted 20..200 times so Go's randomized map iteration supplies the 'any iteration order' quantifier, and the number of distinct output orders per graph is recorded; oracle: same set, each once, every in-set parent before its child. (b) Store.UnminedTxs after every event of C01-style histories, same oracle against the ledger model's unmined set. Non-trivial = graph with at least one in-set edge; distinct = distinct (shape, n, edge-count, seed) graphs.")
+	r.Rule("(a) random spend DAGs of 1..120 transactions in 9 shapes (random, chain, star-out, star-in, diamonds, all-independent, k parallel edges between one pair, several components, conflicting siblings, plus subsets with missing parents); each graph is sorted 20..200 times so Go's randomized map iteration supplies the 'any iteration order' quantifier, and the number of distinct output orders per graph is recorded; oracle: same set, each once, every in-set parent before its child. (b) Store.UnminedTxs after every event of C01-style histories, same oracle against the ledger model's unmined set. (c) complete funded wallets publish independent sends and chains through unconfirmed change, then run the rebroadcast (verif hook) against a backend that accepts all or rejects one transaction: the list the backend received must contain every unconfirmed transaction not descending from a rejected one exactly once, parents first. Non-trivial = graph with at least one in-set edge; distinct = distinct (shape, n, edge-count, seed) graphs.")
 	r.Trusted("btcd wire/chainhash")
 	graphs := r.N(400, 20000)
 	r.Parallel("dag", graphs, evid.Workers(), func(i int, cs int64) {
@@ -229,6 +397,9 @@ func main() {
 		res := ledger.RunHistory(cfg, cs, dir)
 		ledger.Record(r, res, "history", cs, res.Stats["unmined-dependency-edges-checked"] > 0)
 	})
+	r.Parallel("offered", r.N(12, 240), evid.Workers(), func(i int, cs int64) { offered(r, dir, cs) })
+	r.Require("wallet-rebroadcast-passes", 10)
+	r.Require("wallet-rebroadcast-passes-with-rejection", 3)
 	r.Require("sorts", 5000)
 	r.Require("graphs:multi-edge", 10)
 	r.Require("graphs:independent", 10)
